@@ -15,7 +15,8 @@ class C18(Check):
     lean_targets = ["drv_c18"]
     driver = "drv_c18"
     theorems = ["Pox.C18.reachable_inv", "Pox.C18.bounded", "Pox.C18.unique_live", "Pox.C18.use_once", "Pox.C18.packet_in_form", "Pox.C18.use_to_controller"]
-    anchors = [("pox/datapaths/switch.py", 418, 436), ("pox/datapaths/switch.py", 685, 721), ("pox/datapaths/switch.py", 311, 327)]
+    anchors = [("pox/datapaths/switch.py", "SoftwareSwitchBase.send_packet_in"), ("pox/datapaths/switch.py", "SoftwareSwitchBase._buffer_packet"),
+               ("pox/datapaths/switch.py", "SoftwareSwitchBase._process_actions_for_packet_from_buffer"), ("pox/datapaths/switch.py", "SoftwareSwitchBase._rx_packet_out")]
     design_ref = "DESIGN.md §5 C18"
     technique = "Lean 4 proof (invariant over all operation histories tying the ids handed to the controller to the slot list) + differential correspondence through the byte-level switch connection"
     level_text = ("Theorems reachable_inv/bounded/unique_live/use_once/packet_in_form hold for every history of arrivals, buffer uses and set-config, every pool size and frame: "
